@@ -1138,7 +1138,9 @@ def throw_std(kind):
 NPOS = (1 << 64) - 1
 class Str:
     """accessor for std::string at addr"""
-    def __init__(s, e, st, a): s.e = e; s.st = st; s.a = a
+    def __init__(s, e, st, a):
+        if a is UNDEF: raise Violation('string operation on an uninitialised pointer')
+        s.e = e; s.st = st; s.a = e.concretize(st, a) if is_sym(a) else a      # (a reference obtained through a symbolic index is an if-then-else of addresses)
     @property
     def p(s): return s.e.load(s.st, s.a, TInt(64))
     @property
@@ -1248,7 +1250,7 @@ def m_create(e, st, args):
     return e.alloc(st, cap + 1, 'heap')
 def m_assign(e, st, args):
     a = Str(e, st, args[0]); b = Str(e, st, args[1])
-    if args[0] != args[1]: a.set(b.bytes())
+    if a.a != b.a: a.set(b.bytes())
     return None
 def m_mutate(e, st, args):
     s_ = Str(e, st, args[0]); pos, l1, src, l2 = [e.concretize(st, x) for x in args[1:5]]
